@@ -39,3 +39,90 @@ def slot_rule(pid):
                 ctx.holds(rel, "argument-slots", examined=n)
 
     return Rule("%s-A1" % pid, rule, 1, "argument slots: same-named variables land in same-named parameters (resolved in-package call sites of the anchored files)")
+
+
+def _class_methods(tree):
+    """class name -> (bases as written, {method name}) for the classes defined at module level"""
+    import ast
+    out = {}
+    for n in tree.body:
+        if isinstance(n, ast.ClassDef):
+            out[n.name] = ([U(b) for b in n.bases], {x.name for x in n.body if isinstance(x, (ast.FunctionDef, ast.AsyncFunctionDef))})
+    return out
+
+
+def _module_bindings(tree):
+    import ast
+    out = set()
+    for n in tree.body:
+        if isinstance(n, (ast.FunctionDef, ast.AsyncFunctionDef, ast.ClassDef)):
+            out.add(n.name)
+        elif isinstance(n, (ast.Assign, ast.AnnAssign, ast.AugAssign)):
+            tg = n.targets if isinstance(n, ast.Assign) else [n.target]
+            for t in tg:
+                for x in ast.walk(t):
+                    if isinstance(x, ast.Name):
+                        out.add(x.id)
+        elif isinstance(n, (ast.Import, ast.ImportFrom)):
+            for a in n.names:
+                out.add((a.asname or a.name).split(".")[0])
+        elif isinstance(n, (ast.If, ast.Try)):
+            for x in ast.walk(n):
+                if isinstance(x, (ast.FunctionDef, ast.AsyncFunctionDef, ast.ClassDef)):
+                    out.add(x.name)
+                elif isinstance(x, ast.Name) and isinstance(x.ctx, ast.Store):
+                    out.add(x.id)
+                elif isinstance(x, ast.alias):
+                    out.add((x.asname or x.name).split(".")[0])
+    return out
+
+
+def resolution_rule(pid):
+    files = anchor_files(pid)
+
+    def rule(ctx):
+        """The rules (and the reference-equivalence front end) look at the functions they are anchored in; a *new* definition elsewhere can change what
+        those functions mean without touching them: a method added to a subclass that overrides a method its base class had in the reference tree, or a new
+        module-level name that shadows a builtin the module uses.  Such a definition is reported (the analysed code no longer resolves as analysed)."""
+        import ast
+        import builtins
+        from .refeq import ref_tree
+        for rel in files:
+            if not ctx.repo.has(rel):
+                continue
+            ref = ref_tree(rel)
+            if ref is None:
+                continue
+            cur = ctx.mod(rel).tree
+            rc, cc = _class_methods(ref), _class_methods(cur)
+            examined = 0
+            bad = False
+
+            def inherited(cls, seen=()):
+                """method names a class of the reference module inherits from bases defined in the same module"""
+                out = set()
+                for b in rc.get(cls, ([], set()))[0]:
+                    b = b.split(".")[-1]
+                    if b in rc and b not in seen:
+                        out |= rc[b][1] | inherited(b, seen + (cls,))
+                return out
+            for cls, (bases, meths) in cc.items():
+                if cls not in rc:
+                    continue
+                examined += 1
+                inh = inherited(cls)
+                for name in sorted(meths - rc[cls][1]):
+                    if name in inh:
+                        bad = True
+                        ctx.violation("%s:%s.%s" % (rel, cls, name), "new-override", "`%s.%s` is new and overrides the method of that name inherited from %s in the reference tree: "
+                                      "code analysed through the base class no longer runs for %s objects" % (cls, name, "/".join(rc[cls][0]), cls))
+            used = {x.id for x in ast.walk(ref) if isinstance(x, ast.Name) and isinstance(x.ctx, ast.Load)}
+            for name in sorted(_module_bindings(cur) - _module_bindings(ref)):
+                examined += 1
+                if hasattr(builtins, name) and name in used:
+                    bad = True
+                    ctx.violation("%s:%s" % (rel, name), "shadows-builtin", "the new module-level name `%s` shadows the builtin of that name, which functions of this module use" % name)
+            if not bad:
+                ctx.holds(rel, "name-resolution", examined=max(examined, 1))
+
+    return Rule("%s-A2" % pid, rule, 1, "name resolution of the analysed code unchanged: no new override of an inherited method, no new module-level name shadowing a used builtin")
